@@ -143,7 +143,7 @@ class Checker:
     def violation(self, sig, what, replay, model=None):
         r = self.res
         for v in r.violations:
-            if v['sig'] == sig and len([w for w in r.violations if w['sig'] == sig]) >= 3:
+            if v['sig'] == sig:
                 v['count'] = v.get('count', 1) + 1
                 return
         r.violations.append({'sig': sig, 'what': what, 'replay': replay, 'count': 1})
@@ -173,6 +173,8 @@ def cross_check(smt2_text, expected, timeout=60):
     """re-decide one query with cvc5 and z3-new; returns list of (solver, answer)"""
     out = []
     with tempfile.NamedTemporaryFile('w', suffix='.smt2', delete=False, dir='/var/tmp') as f:
+        if '(set-logic' not in smt2_text:
+            f.write('(set-logic ALL)\n')
         f.write(smt2_text)
         if '(check-sat)' not in smt2_text:
             f.write('\n(check-sat)\n')
@@ -181,7 +183,8 @@ def cross_check(smt2_text, expected, timeout=60):
         for solver, cmd in (('cvc5', ['cvc5', '--lang', 'smt2', path]), ('z3-new', ['z3-new', path])):
             try:
                 r = subprocess.run(cmd, stdout=subprocess.PIPE, stderr=subprocess.STDOUT, text=True, timeout=timeout)
-                ans = r.stdout.strip().split('\n')[0] if r.stdout.strip() else 'error'
+                lines = [l.strip() for l in r.stdout.strip().split('\n') if l.strip()]
+                ans = next((l for l in lines if l in ('sat', 'unsat', 'unknown')), 'error: ' + r.stdout.strip()[:200])
                 if '(error' in r.stdout:
                     ans = 'error: ' + r.stdout.strip()[:200]
             except subprocess.TimeoutExpired:
